@@ -7,6 +7,7 @@ W=$1; SID=$2; PID=$3; shift 3; OPTS="$*"
 OUT=/verif/seeded/$SID; mkdir -p $OUT
 LOG=$OUT/confirm.log; : > $LOG
 cd $W || exit 2
+find demo -maxdepth 1 -type d -name "_*" -exec rm -rf {} + 2>/dev/null     # stale build directories inside the demo
 cp mutation.diff $OUT/patch.diff
 rm -rf $OUT/demo; cp -r demo $OUT/demo 2>/dev/null
 cp MUTATION.md $OUT/MUTATION.md 2>/dev/null
